@@ -263,6 +263,9 @@ def run_shard(spec):
                 d2 = digest(env.compile_src(src, word=word, stack=stack, unchecked=unchecked))
             except CompilerError as e:
                 d1 = d2 = f'ERR:{type(e).__name__}:{e}'
+            except Exception as e:  # noqa  an internal exception is an outcome too: the same source must not compile in one configuration and crash in another
+                d1 = d2 = f'INTERNAL:{type(e).__name__}:{e}'
+                runner.fail(res, 'M-EXC', f'compilation at word={word} stack={stack} unchecked={unchecked} dies with {type(e).__name__}: {e}', job)
             res['evaluations'] += 1
             if d1 != d2:
                 runner.fail(res, 'M-REPRO', 'two in-process compilations of the same source/options differ', job)
